@@ -1009,6 +1009,9 @@ def run(res: common.Result, build) -> int:
     run_unit(res, rng, res.tier)
     run_docs(res, res.tier)
     res.extra["float_boundary"] = {k: v for k, v in res.distribution.items() if k.startswith("float_boundary")}
+    from .. import crosscorr
+
+    crosscorr.run_cross(crosscorr.LIGHT["C08"], res)      # second tie: the whole-encoder correspondence class
     return common.finish(
         res, build, RULE, TRUSTED, ASSUME,
         explanation="C08_last_is_W / C08_right_edge (last boundary exactly W, hence twip W), "
@@ -1026,6 +1029,15 @@ def run(res: common.Result, build) -> int:
 
 
 def replay(payload) -> int:
+    _cross = payload.get("case") or {}
+    if not _cross.get("cross"):
+        for _b in payload.get("broken") or []:
+            if (_b.get("case") or {}).get("cross"):
+                _cross = _b["case"]
+    if _cross.get("cross"):
+        from .. import crosscorr
+
+        return crosscorr.replay_cross(crosscorr.LIGHT["C08"], _cross)
     case = payload.get("case") or {}
     bad = False
     tmp = common.Result("C08", "quick", 0)
